@@ -536,9 +536,19 @@ func (f *Frame) applyContract(c *Contract, callee *ssa.Function, cc *ssa.CallCom
 			outside = sAnd(outside, sNot(g))
 		}
 	}
+	calleeMode := "int"
+	if c.Mode != "" {
+		calleeMode = strings.Fields(c.Mode)[0]
+	}
 	for _, en := range c.Ensures {
 		g, err := e.evalBool(post, en.E)
 		if err != nil {
+			if calleeMode != e.mode {
+				// a clause written for the callee's arithmetic mode (bit-vector operators) cannot be stated in this
+				// caller's mode: the caller simply does not learn it
+				e.note("postcondition %d of %s (mode %s) is not expressible in mode %s of the caller and is not used", en.Ord, c.Key, calleeMode, e.mode)
+				continue
+			}
 			e.bindError(c.Key+".ensures", err)
 			continue
 		}
